@@ -208,6 +208,26 @@ def run(facts, tr, rep):
                        "a stored value is returned only when entry.is_expired(self.ttl) is false" if ok else
                        "a stored value can be returned without the expiry test on the configured ttl")
         rep.floor("C10.get-some-returns", nsome, 1)
+    # every store is built with the configured TTL: the value stored in the store's ttl field comes, at every
+    # construction path inside the crate, from a `ttl` configuration field (or from a public constructor's caller)
+    if store_get:
+        sadt = sg.types[sg.impl["self_ty"]].get("def") if sg.impl else None
+        nttl = 0
+        for (ab, i, j, rv) in (agg_sites(facts, sadt) if sadt else []):
+            for fn_, op_ in zip(rv["fields"], rv["ops"]):
+                fdef = next((f for f in facts.adt(sadt)["variants"][0]["fields"] if f["name"] == fn_), None)
+                if fdef is None or "Option<core::time::Duration>" not in facts.crates[CRATE].types[fdef["ty"]]["s"]:
+                    continue
+                v = tr.expand(tr.operand(ab, op_, (i, j)), upvars=True, params=True)
+                for k_, lf in enumerate(leaves(v)):
+                    lf = peel(lf)
+                    nttl += 1
+                    okt = mentions_field(tr, lf, "ttl") or (lf[0] == "param" and (facts.bodies.get(lf[2]) is not None and facts.bodies[lf[2]].j.get("vis") == "pub"))
+                    rep.ob("C10.EXPIRY", "%s|store-ttl-origin#%d" % (CRATE, k_), okt, where(ab, i, j),
+                           "the store's TTL comes from the configured ttl on this construction path" if okt else
+                           "on one construction path the store's TTL is %s instead of the configured ttl: entries of a cache built "
+                           "that way never expire (or expire at the wrong age)" % show(lf)[:60])
+        rep.floor("C10.store-ttl-origins", nttl, 2)
     rep.ob("C10.EXPIRY", "%s|expiry-predicate" % CRATE, bool(store_get) and bool(expiry_fns), "-",
            "the expiry predicate consulted by the lookup is elapsed(inserted_at) > ttl (%s)" % sorted(x.split("::")[-1] for x in expiry_fns) if store_get and expiry_fns else
            "no predicate of the form inserted_at.elapsed() > ttl guards the lookup")
@@ -225,6 +245,19 @@ def run(facts, tr, rep):
         adt = facts.adt(adt_def)
         containers = [f["name"] for f in adt["variants"][0]["fields"]
                       if any(t in facts.crates[CRATE].types[f["ty"]]["s"] for t in ("HashMap", "VecDeque", "LruCache", "BTreeMap", "Vec<"))]
+        # COUNTER: per-key use counters (a map into an integer) order the victims; a counter narrower than 64 bits can
+        # wrap or overflow within a reachable number of hits, which turns the most used key into the victim
+        import re as _re
+        for f in adt["variants"][0]["fields"]:
+            fty = facts.crates[CRATE].types[f["ty"]]["s"]
+            m_ = _re.search(r"Map<.*,\s*([ui])(8|16|32|64|128|size)>$", fty)
+            if not m_:
+                continue
+            wide = m_.group(2) in ("64", "128", "size")
+            rep.ob("C10.COUNTER", "%s|%s|counter.%s" % (CRATE, short, f["name"]), wide, "-",
+                   "use counters of %s.%s are %s%s (cannot wrap within a reachable number of hits)" % (short, f["name"], m_.group(1), m_.group(2)) if wide else
+                   "use counters of %s.%s are %s%s: after 2^%s hits a key's counter wraps or overflows and the most used key is evicted first"
+                   % (short, f["name"], m_.group(1), m_.group(2), m_.group(2)))
         ins = items.get("insert")
         if ins is None:
             rep.anchor_missing("EvictionStore::insert of " + short)
